@@ -37,6 +37,18 @@ def run(ctx):
                 b = tuple(rng.sample(b, 6))
             cases.append((rng.choice(['sw', 'proj']), [a, b], []))
         groups.append({'u': ucfg(sig=rng.choice(P.sig_classes(d))), 'opts': {}, 'cases': cases})
+    # operands made of a blade and its complement (and a third blade): the products that reach the pseudoscalar
+    for d in (3, 4, 5):
+        nb = 2 ** d
+        cases = []
+        for _ in range(20 if q else 120):
+            i = rng.randrange(nb)
+            keys = [i, (nb - 1) ^ i] + ([rng.randrange(nb)] if rng.random() < 0.5 else [])
+            keys = list(dict.fromkeys(keys))
+            rng.shuffle(keys)
+            cases.append(('normsq', [tuple(keys)], []))
+            cases.append((rng.choice(['sw', 'proj']), [tuple(keys), P.random_key_tuple(rng, d, 3, 1)], []))
+        groups.append({'u': ucfg(sig=rng.choice(P.sig_classes(d))), 'opts': {}, 'cases': cases})
     groups += blade_pair_plan(ctx, ['sw', 'proj'], dims=(3, 4, 5), n={3: 64, 4: 256, 5: 200} if q else {3: 64, 4: 256, 5: 1024})
     run_plan(ctx, groups, budget=60)
     return ctx.finish(
